@@ -185,7 +185,7 @@ pub fn check_bounds(c: &BoundsCase, obs: &mut Obs) -> CheckResult {
 // ---------------------------------------------------------------------------------------------
 // Part B
 
-pub const CORRUPTIONS: [&str; 14] = [
+pub const CORRUPTIONS: [&str; 15] = [
     "garbage-token",
     "digits-then-garbage",
     "overflow-40-digits",
@@ -200,6 +200,7 @@ pub const CORRUPTIONS: [&str; 14] = [
     "aiger-name-invalid-utf8",
     "btor2-unknown-keyword",
     "btor2-zero-id",
+    "aiger-latch-init-invalid",
 ];
 
 #[derive(Serialize, Deserialize, Clone, Debug, PartialEq, Eq, Hash)]
@@ -500,6 +501,40 @@ fn corrupt(c: &ExactCase) -> Option<Corrupted> {
                 }
             };
             Some(replace(bytes, t, &with))
+        }
+        "aiger-latch-init-invalid" => {
+            // an in-range initialisation literal that is neither 0, 1 nor the latch itself
+            let Doc::Aiger(d) = &c.doc else { return None };
+            if d.aig.max_var_index < 2 {
+                return None;
+            }
+            let first_latch = 1 + if d.binary { 0 } else { d.aig.inputs.len() };
+            let fields = if d.binary { 2 } else { 3 };
+            let mut inits: Vec<(&Tok, u64)> = vec![];
+            for (k, l) in d.aig.latches.iter().enumerate() {
+                let toks: Vec<&Tok> = nums.iter().copied().filter(|t| t.item == first_latch + k).collect();
+                if toks.len() == fields {
+                    let state = if d.binary {
+                        2 * (d.aig.input_count + 1 + k as u64)
+                    } else {
+                        l.0.unwrap_or(0)
+                    };
+                    inits.push((toks[fields - 1], state));
+                }
+            }
+            if inits.is_empty() {
+                return None;
+            }
+            let (t, state) = inits[(c.pick as usize * inits.len()) >> 16];
+            let max_lit = 2 * d.aig.max_var_index + 1;
+            let mut v = 2 + c.arg as u64 % (max_lit - 1);
+            if v == state {
+                v = if v + 1 <= max_lit { v + 1 } else { v - 1 };
+            }
+            if v < 2 || v == state {
+                return None;
+            }
+            Some(replace(bytes, t, v.to_string().as_bytes()))
         }
         "btor2-zero-id" => {
             if spec.parser != ParserId::Btor2 {
